@@ -1,4 +1,4 @@
-CONSTANTS MaxConn = 2  MaxBody = 1  MaxTop = 5  MaxRetry = 1
+CONSTANTS MaxConn = 2  MaxBody = 1  MaxTop = 5  MaxRetry = 1  MaxSvcRef = 1
 CONSTANTS Fix = {1, 2, 3, 4, 6, 7}  Skip = {}
 SPECIFICATION MCSpec
 INVARIANT TypeOK
